@@ -22,6 +22,8 @@ LineOK ==
          /\ e.default = DefaultTTL
          /\ e.set0 = "ErrBadValue" /\ e.set256 = "ErrBadValue" /\ e.setneg = "ErrBadValue" /\ e.setstr = "ErrBadValue"
          /\ e.set1 = "ok" /\ e.set255 = "ok"
+    \* the driver could not set a hop limit it wanted to inject under: every value in 1..255 is settable
+    [] e.k = "httl" -> (e.ttl \in 1..255) => e.r = "ok"
     [] e.k = "hop" ->
          LET r == Loop(LoopOf(e.proto), e.n, e.avail, e.ttl) IN
          /\ e.delivered = (r # 0)
